@@ -240,7 +240,7 @@ def run(ctx, replay=None):
         st[c['fin']['status']] = st.get(c['fin']['status'], 0) + 1
     for need in ('done', 'include', 'parse'):
         if not st.get(need):
-            raise tlc.MachineryError(f'vacuity: no run ended with status {need}')
+            ctx.vacuous(f'vacuity: no run ended with status {need}')
     ctx.notes['finish_status_counts'] = st
     ctx.notes['family_trees'] = len(choices)
     return F.finish(ctx, rule='include trees of the MC_Include family (refs main<=2, a/b/g<=1, early return, merged adjacent includes, '
